@@ -411,6 +411,12 @@ class Analyzer:
                         hi = min(hi, sx[1][1])
         elif op in ("Sub", "SubWithOverflow", "SubUnchecked"):
             lo, hi = a["lo"] - b["hi"], a["hi"] - b["lo"]
+            sa_ = a.get("s")
+            if isinstance(sa_, tuple) and sa_[0] == "Shl" and b.get("s") is not None and sa_[1] == b["s"] and isinstance(sa_[2], tuple) and sa_[2][0] == "c" \
+                    and b["lo"] >= 0 and a["hi"] == b["hi"] << sa_[2][1]:
+                # (x << k) - x == x * (2^k - 1) when the shift loses no bits
+                kk_ = (1 << sa_[2][1]) - 1
+                lo, hi = max(lo, b["lo"] * kk_), min(hi, b["hi"] * kk_)
             if a.get("s") is not None and b.get("s") is not None and self._facts:
                 # a - b with b <= a (b < a) established on this path
                 if ("lt", b["s"], a["s"]) in self._facts:
@@ -476,7 +482,7 @@ class Analyzer:
             if base in ("Add", "Mul", "BitAnd", "BitOr", "BitXor") and repr(sb) < repr(sa):
                 sa, sb = sb, sa
             tag = (base, sa, sb)
-            if tag_depth(tag) > 2:
+            if tag_depth(tag) > 4:
                 tag = None
         if lo == hi:
             tag = ("c", lo)
@@ -1131,6 +1137,51 @@ def _analyze(self, fn, args, chain=(), subst=None, facts=None):
         self.memo.pop(key, None)
     self._inst, self._made_tag = saved_inst, (saved_flag or self._made_tag)
     return summ
+
+
+def _wrap_cases(self, op, a, b, dty, t):
+    """[(value, facts)] for wrapping_/overflowing_ add/sub: the no-wrap case and the wrapped case, each with its exact interval"""
+    ity = dty.strip("()").split(",")[0].strip()
+    r = ty_range(ity)
+    if not r or r[0] != 0:
+        return None
+    mod = r[1] + 1
+    pair = op.startswith("overflowing")
+    sub = op.endswith("sub")
+    out = []
+
+    def val(lo, hi, flag):
+        v = mk(lo, hi, t)
+        return {"k": "agg", "f": {0: v, 1: const(flag, t)}, "t": False} if pair else v
+
+    def facts(rel):
+        fc = {}
+        if not sub:
+            return fc
+        if a.get("s") is not None and b.get("s") is not None:
+            _rel_fact(fc, rel, a["s"], b["s"])
+        ra = (max(a["lo"], b["lo"]), a["hi"]) if rel == "Ge" else (a["lo"], min(a["hi"], b["hi"] - 1))
+        rb = (b["lo"], min(b["hi"], a["hi"])) if rel == "Ge" else (max(b["lo"], a["lo"] + 1), b["hi"])
+        for x, rx in ((a, ra), (b, rb)):
+            if x.get("s") is not None and x["s"][0] != "c" and rx[0] <= rx[1]:
+                fc[x["s"]] = (rx[0], rx[1], False)
+        return fc
+    if sub:
+        lo, hi = a["lo"] - b["hi"], a["hi"] - b["lo"]
+        if hi >= 0:
+            out.append((val(max(lo, 0), hi, 0), facts("Ge")))
+        if lo < 0:
+            out.append((val(lo + mod, min(hi, -1) + mod, 1), facts("Lt")))
+    else:
+        lo, hi = a["lo"] + b["lo"], a["hi"] + b["hi"]
+        if lo < mod:
+            out.append((val(lo, min(hi, mod - 1), 0), {}))
+        if hi >= mod:
+            out.append((val(max(lo, mod) - mod, hi - mod, 1), {}))
+    return out
+
+
+Analyzer._wrap_cases = _wrap_cases
 
 
 def _shift_cases(self, fn, st, rv):
@@ -1855,6 +1906,22 @@ def _std(self, fn, st, b, t, cn, last, args, dargs, targ, summ, chain, tctrl):
             return enum_val(variants, targ)
         if last in ("from_le_bytes", "from_be_bytes", "from_ne_bytes"):
             return mk(r[0], r[1], targ) if r else top(targ)
+        if last in ("wrapping_sub", "wrapping_add", "overflowing_sub", "overflowing_add") and ints(0, 1):
+            cases = self._wrap_cases(last, dargs[0], dargs[1], dty, targ)
+            if cases:
+                tg = ("v", fn.id, b, tuple(a.get("s") for a in dargs if a["k"] == "int"))
+                for cv, _ in cases:
+                    x = cv["f"][0] if cv["k"] == "agg" else cv
+                    if x.get("s") is None and x["lo"] != x["hi"]:
+                        x["s"] = tg
+                if len(cases) > 1 and self.split_shifts:
+                    self._outs = cases
+                    return cases[0][0]
+                v = cases[0][0]
+                for c2, _ in cases[1:]:
+                    v = join(v, c2)
+                return v
+            return top_ty(dty, targ)
         if last in ("wrapping_sub", "wrapping_add", "wrapping_mul", "overflowing_sub", "overflowing_add"):
             return top_ty(dty, targ)
         if last in ("div_ceil",) and ints(0, 1):
